@@ -114,6 +114,7 @@ def history(rng, maxlen, style):
 def batches(rng, tier):
     thorough = tier == "thorough"
     maxlen = 40 if thorough else 25
+    yield from shape_pair_batches(tier)
     for style, cnt_q, cnt_t in (("mixed", 4000, 40000), ("assign", 2000, 20000), ("grow", 1500, 15000)):
         r = rng.fork("hist-" + style)
         cnt = cnt_t if thorough else cnt_q
@@ -123,6 +124,61 @@ def batches(rng, tier):
             ops += history(r, maxlen, style)
         yield Batch(f"histories-{style}", ops, kind="history",
                     note=f"{cnt} histories of up to {maxlen} lines, style {style}")
+
+
+def shapes(n):
+    """all ordered rooted trees with n nodes, as nested lists of children"""
+    if n == 1:
+        return [[]]
+    out = []
+    # forests with n-1 nodes: first child has k nodes, the rest is a forest of n-1-k nodes (= a tree of n-k nodes minus its root)
+    for k in range(1, n):
+        for first in shapes(k):
+            for rest in shapes(n - k):
+                out.append([first] + rest)
+    return out
+
+
+def build_lines(root, shape, values):
+    """history lines that build `shape` as forest root number `root`; values are consumed in pre-order"""
+    it = iter(values)
+    lines = [f"new {next(it)}"]
+
+    def rec(path, kids):
+        for j, k in enumerate(kids):
+            lines.append(f"pushb {path} {next(it)}")
+            rec(f"{path}.{j}", k)
+    rec(f"p{root}", shape)
+    return lines
+
+
+def shape_pair_batches(tier):
+    """Systematic: every pair of tree shapes (<= 4 nodes quick, <= 5 thorough) holding the SAME values in pre-order (and one
+    variant with a single differing value), compared with == / != in both directions, plus the observers on both. A comparison
+    that looks only at the flattened sequence, at the sizes, or only at the first level is wrong on some pair."""
+    maxn = 5 if tier == "thorough" else 4
+    sh = [(n, t) for n in range(1, maxn + 1) for t in shapes(n)]
+    ops = []
+    for na, a in sh:
+        for nb, b in sh:
+            for variant in (0, 1):
+                if variant == 1 and (na != nb or na == 1):
+                    continue
+                va = list(range(1, na + 1))
+                vb = list(range(1, nb + 1))
+                if variant == 1:
+                    vb[-1] += 7
+                ops.append("reset")
+                ops += build_lines(0, a, va)
+                ops += build_lines(1, b, vb)
+                ops += ["eq p0 p1", "eq p1 p0", "pre p0", "pre p1", "depth p0", "depth p1"]
+                if a and b:
+                    ops += ["eq p0.0 p1.0", "eq p0 p1.0", f"eq p0.{len(a) - 1} p1.{len(b) - 1}"]
+                # the same comparison after a copy and after moving a grandchild one level up
+                ops += ["cpc p0", "eq p0 p2", "eq p2 p1"]
+    yield Batch("shape-pairs", ops, kind="history", exhaustive=True,
+                note=f"all pairs of ordered tree shapes with <= {maxn} nodes and identical pre-order values (+ one-value variants): "
+                     "== / != both ways, on sub-trees and on a copy")
 
 
 def nontrivial(op, result):
